@@ -578,6 +578,91 @@ func corpusReopenEmpty(o *Out) {
 		o.Case("reopen", "ok "+observe(db).snap(st))
 	}
 	put(0x01, 10)
+	corpusScripts(o)
+}
+
+// corpusScripts: hand-made histories over ids made of one repeated byte (their distance from the zero node id reads the same in
+// both byte orders), each aimed at a coincidence random histories do not produce.
+func corpusScripts(o *Out) {
+	type step struct {
+		b byte // id = 32 times this byte
+		n int  // value length; -1 = reopen
+	}
+	scripts := [][]step{
+		// a second pruning pass that has to drop EVERYTHING (small leftovers + a nearest item of 99 % of the capacity) after
+		// a first one has shrunk the radius: the radius stays where it was, a put beyond it is still refused
+		{{0xf0, 985000}, {0x50, 5000}, {0x60, 10000}, {0x10, 990000}, {0x70, 100}, {0x05, 100}, {0, -1}, {0x70, 100}},
+		// the same id put again and again (the counter counts every put), then pruned, then flushed and reopened
+		{{0xc0, 300000}, {0xc0, 300000}, {0xc0, 300000}, {0x40, 90000}, {0x30, 20000}, {0xc0, 5}, {0, -1}, {0x20, 40000}, {0, -1}},
+		// refused puts in a row between accepted ones that land exactly at, one above and one below the capacity
+		{{0xe0, 500000}, {0xd0, 499900}, {0x20, 4}, {0xee, 50}, {0xef, 60}, {0xed, 70}, {0x21, 400000}, {0x22, 99900}, {0x23, 0}, {0xec, 80}, {0x24, 1}, {0, -1}},
+	}
+	for _, sc := range scripts {
+		var node enode.ID
+		db, err := pebble.Open("", &pebble.Options{FS: vfs.NewMem()})
+		if err != nil {
+			panic(err)
+		}
+		cfg := storage.PortalStorageConfig{StorageCapacityMB: 1, NodeId: node, NetworkName: "verif"}
+		st, err := spebble.NewStorage(cfg, db)
+		if err != nil {
+			panic(err)
+		}
+		o.Case(fmt.Sprintf("open cap=%d node=%s", 1000_000, hex.EncodeToString(node[:])), "ok "+observe(db).snap(st))
+		for k, s := range sc {
+			if s.n < 0 {
+				_ = db.Flush()
+				st2, err := spebble.NewStorage(cfg, db)
+				if err != nil {
+					o.Case("reopen", "err")
+					break
+				}
+				st = st2
+				o.Case("reopen", "ok "+observe(db).snap(st))
+				continue
+			}
+			id := bytes.Repeat([]byte{s.b}, 32)
+			before := observe(db)
+			err := st.Put(nil, id, genBytes(s.n, k))
+			after := observe(db)
+			res := "ok"
+			if errors.Is(err, storage.ErrInsufficientRadius) {
+				res = "insufficient_radius"
+			} else if err != nil {
+				res = "err"
+			}
+			dropped, minDropped := 0, "-"
+			if res == "ok" {
+				before.keys[string(id)] = true
+				var dk []string
+				for kk := range before.keys {
+					if !after.keys[kk] {
+						dk = append(dk, kk)
+					}
+				}
+				sort.Strings(dk)
+				dropped = len(dk)
+				if dropped > 0 {
+					minDropped = hex.EncodeToString([]byte(dk[0]))
+				}
+			}
+			o.Case(fmt.Sprintf("put id=%s len=%d seed=%d small=0", hex.EncodeToString(id), s.n, k),
+				fmt.Sprintf("%s %s dropped=%d mindropped=%s", res, after.snap(st), dropped, minDropped))
+			// a get of what was just put (or refused)
+			v, gerr := st.Get(nil, id)
+			present := 0
+			if _, closer, rerr := db.Get(id); rerr == nil {
+				present = 1
+				closer.Close()
+			}
+			if gerr != nil {
+				o.Case(fmt.Sprintf("get id=%s present=%d", hex.EncodeToString(id), present), "notfound")
+			} else {
+				o.Case(fmt.Sprintf("get id=%s present=%d", hex.EncodeToString(id), present), fmt.Sprintf("val=%d:%016x", len(v), fnv(v)))
+			}
+		}
+		// the store is left open: a pruning pass starts a detached compaction that must not find the database closed
+	}
 }
 
 // aliasHistory looks at the lifetime of the slices handed out by Get: values are read back from flushed
